@@ -186,8 +186,8 @@ theorem deferredError_eq_some (sf : List Spec) (x : Spec) (e : Entry) (err : Err
 theorem errors_eq_attached (hnd : roots.Nodup) (err : ErrOut) :
     err ∈ g.errors o roots ↔
       ∃ x e, Enq g o (fun _ => false) roots x ∧ yieldOf g o x = some e ∧ Attached g o roots x e err := by
-  simp only [Graph.errors, List.mem_append, List.mem_flatMap, List.mem_reverse, List.mem_filterMap,
-    Attached]
+  simp only [Graph.errors, Tables.errorsReportSkippedMissing, if_true, List.mem_append, List.mem_flatMap,
+    List.mem_reverse, List.mem_filterMap, Attached]
   constructor
   · rintro (⟨⟨x, e⟩, hm, he⟩ | ⟨⟨x, e⟩, hm, he⟩)
     · obtain ⟨h1, h2⟩ := (walk_eq_visits g o (fun _ => false) roots hnd x e).mp hm
